@@ -1,4 +1,25 @@
 CHECKS = {
+ "C17": {
+  "text": "Generated correspondence sets (N 3..200; generic, planar, collinear, duplicated, thin-plane, needle; noise 0..0.5 incl. reflection-"
+          "prone; rotations over all of SO(3) incl. pi; scales 0.1..10; batches; both dtypes) against Horn's quaternion optimum and the "
+          "closed-form similarity optimum as a VALIDITY predicate (proper transform, SSE not larger than the optimum's, exact "
+          "correspondences reproduced with a conditioning-aware residual bound); ICP on jittered-grid clouds (brute-force closest-point "
+          "monotonicity, recovery when the first matching is the true one); EPnP from exact projections with tolerances scaled by the "
+          "DLT conditioning. Exploration.",
+  "design_ref": "DESIGN.md section 3, C17",
+  "note": "Reference: numpy Horn / Umeyama (two formulations cross-checked), brute-force closest points, own pinhole projection; EPnP in float64 only.",
+  "technique": "property-based testing: Hypothesis generators against reference optimisers used as validity predicates",
+ },
+ "C19": {
+  "text": "Generated point sets / pose sequences / trajectories: chspline knots, straight lines at every sample and exact sample counts (rational "
+          "arithmetic on the interval); bspline counts, constant-twist motions against the reference Exp, left-equivariance, continuity, "
+          "extrapolated ends; ape / rpe over all error types x pairing options x align/scale/origin flags with jittered timestamps and "
+          "subsampling: zero on identical trajectories, invariance under rigid / similarity displacement, statistic ordering, inputs "
+          "unchanged; geodesic loss on all 8x8 ltype pairs against atan2 angles of reference matrices. Exploration.",
+  "design_ref": "DESIGN.md section 3, C19",
+  "note": "Reference: numpy / mpmath Lie algebra of vp/ref/lie.py and vp/ref/traj.py; nposes left at its default; distance pairing only where every discrete decision is clear of ties.",
+  "technique": "property-based testing: Hypothesis generators with interpolation, equivariance (metamorphic) and reference-value oracles",
+ },
  "C18": {
   "text": "Generated clouds (1..300 points, 1..6 dims, feature channels, outliers at arbitrary rows, integer-grid clouds with ties, batches "
           "where documented) against numpy brute-force definitions: knn values/indices, nbr_filter mask, voxel_filter centroids / members "
